@@ -20,6 +20,7 @@ import (
 	quic "github.com/refraction-networking/uquic"
 	"github.com/refraction-networking/uquic/internal/verifmc/explore"
 	"github.com/refraction-networking/uquic/internal/verifmc/sim"
+	"github.com/refraction-networking/uquic/internal/verifmc/wiremon"
 	"github.com/refraction-networking/uquic/internal/verifmc/wireobs"
 	tls "github.com/refraction-networking/utls"
 )
@@ -343,6 +344,10 @@ func c13Run(t *testing.T, cfg c13Config) c13Result {
 		w.ServerTr.Close()
 		w.CloseEndpoints()
 		swg.Wait()
+		// passive wire monitor over everything either side sent (forged datagrams excluded)
+		if mon := wiremon.Analyze(w.Router.FullLog(), w.KeyLog.Lines(), wiremon.Params{}); len(mon.Findings) > 0 && res.fail == nil {
+			res.fail = explore.Failf(mon.Findings[0].Key, "%s", mon.Findings[0].What)
+		}
 		res.Datagrams = [2]int{w.Router.Count(sim.C2S), w.Router.Count(sim.S2C)}
 		res.Transcript = w.Router.Transcript()
 	})
